@@ -279,3 +279,37 @@ Qed.
 Example ex_e_markers : exists toks, enc_veds true true true ex_e = Some toks /\ length toks = 53%nat
                                      /\ In (EGSTATUS FRAGMENTED) toks /\ In ENSTATUS toks.
 Proof. eexists. split; [vm_compute; reflexivity|]. split; [reflexivity|]. split; vm_compute; tauto. Qed.
+
+(* ---------------------------------------------------------------- *)
+(* stability: encoding the decoded graph again gives the same tokens *)
+
+From PyD Require Import Proofs.SimpleMrsStable.
+
+Lemma enc_vnode_proj p l n : enc_vnode p l (proj_vnode p l n) = enc_vnode p l n.
+Proof.
+  unfold enc_vnode, proj_vnode. cbn [v_id v_pred v_lnk v_carg v_type v_props v_edges].
+  rewrite sort_roles_idem.
+  assert (Hl : (if l && lnk_truthy (proj_lnk l (v_lnk n)) then [ELNK (proj_lnk l (v_lnk n))] else [])
+               = (if l && lnk_truthy (v_lnk n) then [ELNK (v_lnk n)] else [])).
+  { unfold proj_lnk. destruct l; [|reflexivity]. cbn [andb]. destruct (lnk_truthy (v_lnk n)) eqn:E; [rewrite E|]; reflexivity. }
+  rewrite Hl. f_equal. f_equal. f_equal. f_equal.
+  unfold has_block, proj_type. cbn [v_props v_type].
+  destruct p; cbn [andb]; [|reflexivity].
+  rewrite sort_props_idem.
+  destruct (v_props n) as [|q qs] eqn:Ep.
+  - cbn [sort_props fold_right]. destruct (v_type n); reflexivity.
+  - assert (Hne : sort_props (q :: qs) <> []) by (intros X; apply sort_props_nil in X; discriminate).
+    destruct (sort_props (q :: qs)) as [|s0 ss] eqn:Es; [contradiction Hne; reflexivity|].
+    destruct (v_type n); reflexivity.
+Qed.
+
+Theorem enc_gen_stable frag disc p l g : enc_gen frag disc p l (proj_veds p l g) = enc_gen frag disc p l g.
+Proof.
+  assert (Hn : forall nodes,
+            flat_map (fun n => (if disc (v_id n) then [ENSTATUS] else []) ++ enc_vnode p l n) (map (proj_vnode p l) nodes)
+            = flat_map (fun n => (if disc (v_id n) then [ENSTATUS] else []) ++ enc_vnode p l n) nodes).
+  { induction nodes as [|x xs IH]; [reflexivity|]. cbn [map flat_map]. rewrite IH, enc_vnode_proj. reflexivity. }
+  unfold enc_gen, proj_veds. cbn [ve_ident ve_nodes ve_top].
+  destruct (ve_ident g) as [[|c i]|]; destruct (ve_nodes g) as [|n ns]; cbn [map]; try reflexivity;
+    change (proj_vnode p l n :: map (proj_vnode p l) ns) with (map (proj_vnode p l) (n :: ns)); rewrite Hn; reflexivity.
+Qed.
